@@ -1701,7 +1701,285 @@ Qed.
 Lemma ex3_disjoint : masks_disjoint (map (cmask ex3_tab) ex3_ds).
 Proof.
   intros a b i N.
-  destruct a as [|[|[|a]]], b as [|[|[|b]]]; try congruence;
-    try (destruct a; simpl; apply Z.land_0_l); try (destruct b; simpl; apply Z.land_0_r);
+  destruct (Nat.lt_ge_cases a 3) as [La|La];
+    [|rewrite (nth_overflow (map (cmask ex3_tab) ex3_ds) no_mask) by (simpl; lia); apply Z.land_0_l].
+  destruct (Nat.lt_ge_cases b 3) as [Lb|Lb];
+    [|rewrite (nth_overflow (map (cmask ex3_tab) ex3_ds) no_mask (n := b)) by (simpl; lia); apply Z.land_0_r].
+  destruct a as [|[|[|a]]]; try lia; destruct b as [|[|[|b]]]; try lia; try congruence;
     destruct i as [|[|[|[|[|i]]]]]; vm_compute; reflexivity.
 Qed.
+
+(* ================================================================ clocks in the composed system *)
+(* Clock process k inside an arbitrary process list (other clocks with any periods / phases, compiled RTL processes,
+   user processes) and with arbitrary testbenches: its j-th run happens at exactly the time the isolated system
+   clk_sys predicts. Induction over the steps of advance() / run. *)
+Section ClockComposed.
+  Variable ps : list proc.
+  Variable k : nat.
+  Variables (slot : nat) (phase period : Z).
+  Hypothesis Hk : nth k ps no_proc = clock_proc slot phase period.
+  Hypothesis Hphase : 0 <= phase.
+  Hypothesis Hperiod : 0 <= period.
+
+  Let T (j : nat) : Z := snd (clk_sys slot phase period j).
+  Let L (j : nat) : list Z := fst (clk_sys slot phase period j).
+
+  (* about to make run j: this happens at time T j exactly *)
+  Definition clk_due (j : nat) (st : estate) : Prop :=
+    (k < length (e_procs st))%nat /\
+    nth k (e_procs st) no_pstate = PS true (L j) None t_none (ps_res (nth k (e_procs st) no_pstate))
+                                      (ps_first (nth k (e_procs st) no_pstate)) /\
+    e_now st = T j.
+
+  (* run j made; the waker is armed for time T (j+1) exactly and time has not passed it *)
+  Definition clk_sleep (j : nat) (st : estate) : Prop :=
+    (k < length (e_procs st))%nat /\
+    nth k (e_procs st) no_pstate = PS false (L (S j)) (Some (T (S j))) t_none (ps_res (nth k (e_procs st) no_pstate))
+                                      (ps_first (nth k (e_procs st) no_pstate)) /\
+    e_now st <= T (S j).
+
+  Definition clk_inv (j : nat) (st : estate) : Prop := clk_due j st \/ clk_sleep j st.
+
+  Definition same_clk (st st' : estate) : Prop :=
+    nth k (e_procs st') no_pstate = nth k (e_procs st) no_pstate /\ e_now st' = e_now st /\
+    length (e_procs st') = length (e_procs st).
+
+  Lemma same_clk_refl st : same_clk st st.
+  Proof. repeat split. Qed.
+
+  Lemma same_clk_trans a b c : same_clk a b -> same_clk b c -> same_clk a c.
+  Proof. intros (A1 & A2 & A3) (B1 & B2 & B3). repeat split; congruence. Qed.
+
+  Lemma due_same j st st' : same_clk st st' -> clk_due j st -> clk_due j st'.
+  Proof. intros (A1 & A2 & A3) (B1 & B2 & B3). unfold clk_due. rewrite A1, A2, A3. auto. Qed.
+
+  Lemma sleep_same j st st' : same_clk st st' -> clk_sleep j st -> clk_sleep j st'.
+  Proof. intros (A1 & A2 & A3) (B1 & B2 & B3). unfold clk_sleep. rewrite A1, A2, A3. auto. Qed.
+
+  Definition quiet (st : estate) : Prop :=
+    (k < length (e_procs st))%nat /\ ps_trig (nth k (e_procs st) no_pstate) = t_none.
+
+  Lemma due_quiet j st : clk_due j st -> quiet st.
+  Proof. intros (A & B & _). split; auto. rewrite B. reflexivity. Qed.
+  Lemma sleep_quiet j st : clk_sleep j st -> quiet st.
+  Proof. intros (A & B & _). split; auto. rewrite B. reflexivity. Qed.
+
+  Lemma trig_step_same st o : quiet st -> same_clk st (trig_step st o).
+  Proof.
+    intros [Lk Q]. destruct o as [j|j]; simpl.
+    - destruct (t_active (ps_trig (nth j (e_procs st) no_pstate))) eqn:A; [|apply same_clk_refl].
+      destruct (Nat.eq_dec j k) as [->|N]; [rewrite Q in A; discriminate|].
+      repeat split; simpl; [apply nth_set_nth_neq; auto|apply set_nth_length].
+    - destruct (t_active (tb_trig (nth j (e_tbs st) no_tb))); repeat split.
+  Qed.
+
+  Lemma fold_trig_step_same o : forall st, quiet st -> same_clk st (fold_left trig_step o st).
+  Proof.
+    induction o as [|a o IH]; intros st Q; simpl; [apply same_clk_refl|].
+    pose proof (trig_step_same st a Q) as S1. eapply same_clk_trans; [exact S1|]. apply IH.
+    destruct Q as [Lk Q]. destruct S1 as (A1 & A2 & A3). split; [lia|]. rewrite A1. exact Q.
+  Qed.
+
+  Lemma run_proc_other_same st j : j <> k -> same_clk st (run_proc ps st j).
+  Proof.
+    intros N. unfold run_proc. destruct (ps_run (nth j (e_procs st) no_pstate)); [|apply same_clk_refl].
+    destruct proc_step as [p' ws]. repeat split; simpl; [apply nth_set_nth_neq; auto|apply set_nth_length].
+  Qed.
+
+  Lemma clk_sys_step j : T (S j) = T j + (if hd 1 (L j) =? 0 then period / 2 else phase) /\ L (S j) = [0].
+  Proof.
+    unfold T, L. split; [|rewrite clock_edges_exact; reflexivity].
+    destruct j as [|j].
+    - simpl. lia.
+    - rewrite !clock_edges_exact. cbn [fst snd hd]. rewrite Nat2Z.inj_succ. simpl (0 =? 0). lia.
+  Qed.
+
+  Lemma delay_nonneg j : 0 <= (if hd 1 (L j) =? 0 then period / 2 else phase).
+  Proof. destruct (hd 1 (L j) =? 0); auto. apply Z.div_pos; lia. Qed.
+
+  (* the run itself: at time T j the process arms its waker for T (j+1) *)
+  Lemma run_proc_clock_due j st : clk_due j st -> clk_sleep j (run_proc ps st k).
+  Proof.
+    intros (Lk & E & Hn). unfold run_proc. rewrite E. cbn [ps_run]. rewrite Hk.
+    unfold proc_step. cbn [p_trig clock_proc p_run ps_local ps_timer ps_trig ps_res].
+    destruct (clk_sys_step j) as [ET EL]. pose proof (delay_nonneg j) as Dn.
+    unfold clk_sleep. cbn [e_procs e_now]. rewrite set_nth_length. split; [auto|].
+    rewrite nth_set_nth_eq by auto. cbn [ps_res ps_first].
+    destruct (Z.eq_dec (hd 1 (L j)) 0) as [Z0|Z0].
+    - rewrite (clock_run_toggle _ _ _ _ _ Z0). cbn [r_local r_delay]. rewrite ET, EL, Z0, Hn. rewrite Z0 in Dn.
+      simpl (0 =? 0) in *. split; [reflexivity|lia].
+    - rewrite (clock_run_initial _ _ _ _ _ Z0). cbn [r_local r_delay]. rewrite ET, EL, Hn.
+      apply Z.eqb_neq in Z0. rewrite Z0 in *. split; [reflexivity|lia].
+  Qed.
+
+  Lemma run_proc_clock_sleep j st : clk_sleep j st -> run_proc ps st k = st.
+  Proof. intros (Lk & E & Hn). unfold run_proc. rewrite E. reflexivity. Qed.
+
+  Lemma fold_run_proc_sleep j o : forall st, clk_sleep j st -> clk_sleep j (fold_left (run_proc ps) o st).
+  Proof.
+    induction o as [|a o IH]; intros st H; simpl; auto. apply IH.
+    destruct (Nat.eq_dec a k) as [->|N]; [rewrite (run_proc_clock_sleep j st H); auto|].
+    eapply sleep_same; [apply run_proc_other_same; auto|auto].
+  Qed.
+
+  Lemma fold_run_proc_due j o : forall st, clk_due j st -> In k o -> clk_sleep j (fold_left (run_proc ps) o st).
+  Proof.
+    induction o as [|a o IH]; intros st H I; simpl; [destruct I|].
+    destruct (Nat.eq_dec a k) as [->|N].
+    - apply fold_run_proc_sleep. apply run_proc_clock_due; auto.
+    - destruct I as [I|I]; [congruence|]. apply IH; auto.
+      eapply due_same; [apply run_proc_other_same; auto|auto].
+  Qed.
+
+  Lemma ps_notify_quiet i c n p : ps_trig p = t_none -> ps_notify ps i c n k p = p.
+  Proof.
+    intros Q. unfold ps_notify. rewrite Hk, Q. destruct p; simpl in *. subst. rewrite orb_false_r. reflexivity.
+  Qed.
+
+  Lemma commit_slot_same x i : quiet (fst x) -> same_clk (fst x) (fst (commit_slot ps x i)).
+  Proof.
+    destruct x as [st ch]. intros [Lk Q]. unfold commit_slot. destruct (nth_error (e_slots st) i); [|apply same_clk_refl].
+    destruct (sp s && negb (sc s =? sn s)); [|apply same_clk_refl].
+    cbn [fst e_procs e_now] in *. repeat split; [|apply mapi_from_length].
+    Show. unfold mapi. rewrite (mapi_from_nth _ _ _ _ no_pstate) by auto. simpl. apply ps_notify_quiet; auto.
+  Qed.
+
+  Lemma fold_commit_same o : forall x, quiet (fst x) -> same_clk (fst x) (fst (fold_left (commit_slot ps) o x)).
+  Proof.
+    induction o as [|a o IH]; intros x Q; simpl; [apply same_clk_refl|].
+    pose proof (commit_slot_same x a Q) as S1. eapply same_clk_trans; [exact S1|]. apply IH.
+    destruct Q as [Lk Q]. destruct S1 as (A1 & A2 & A3). split; [lia|]. rewrite A1. exact Q.
+  Qed.
+
+  Lemma run_delta_after_procs o st st2 :
+    quiet st2 -> st2 = fold_left (run_proc ps) (o_proc o) (fold_left trig_step (o_trig o) st) ->
+    same_clk st2 (fst (run_delta ps o st)).
+  Proof.
+    intros Q E. unfold run_delta. rewrite <- E.
+    pose proof (fold_commit_same (o_commit o) (st2, false) Q) as S1.
+    destruct (fold_left (commit_slot ps) (o_commit o) (st2, false)) as [st3 ch]. cbn [fst] in *.
+    destruct S1 as (A1 & A2 & A3). repeat split; auto.
+  Qed.
+
+  Lemma run_delta_clock_sleep j o st : clk_sleep j st -> clk_sleep j (fst (run_delta ps o st)).
+  Proof.
+    intros H.
+    assert (H1 : clk_sleep j (fold_left trig_step (o_trig o) st)).
+    { eapply sleep_same; [apply fold_trig_step_same; eapply sleep_quiet; eauto|auto]. }
+    assert (H2 : clk_sleep j (fold_left (run_proc ps) (o_proc o) (fold_left trig_step (o_trig o) st))).
+    { apply fold_run_proc_sleep; auto. }
+    eapply sleep_same; [eapply run_delta_after_procs; [eapply sleep_quiet; eauto|reflexivity]|auto].
+  Qed.
+
+  Lemma run_delta_clock_due j o st : clk_due j st -> In k (o_proc o) -> clk_sleep j (fst (run_delta ps o st)).
+  Proof.
+    intros H I.
+    assert (H1 : clk_due j (fold_left trig_step (o_trig o) st)).
+    { eapply due_same; [apply fold_trig_step_same; eapply due_quiet; eauto|auto]. }
+    assert (H2 : clk_sleep j (fold_left (run_proc ps) (o_proc o) (fold_left trig_step (o_trig o) st))).
+    { apply fold_run_proc_due; auto. }
+    eapply sleep_same; [eapply run_delta_after_procs; [eapply sleep_quiet; eauto|reflexivity]|auto].
+  Qed.
+
+  Variable orc : oracle.
+  Hypothesis Hcover : forall n, In k (o_proc (orc n)).
+
+  Lemma settle_clock_sleep j fuel : forall st, clk_sleep j st -> clk_sleep j (fst (settle ps orc fuel st)).
+  Proof.
+    induction fuel as [|f IH]; intros st H; simpl; auto.
+    pose proof (run_delta_clock_sleep j (orc (e_deltas st)) st H) as H1.
+    destruct (run_delta ps (orc (e_deltas st)) st) as [st' c]. cbn [fst] in H1. destruct c; simpl; auto.
+  Qed.
+
+  Lemma settle_clock_inv j fuel st : (0 < fuel)%nat -> clk_inv j st -> clk_sleep j (fst (settle ps orc fuel st)).
+  Proof.
+    intros Hf [H|H]; [|apply settle_clock_sleep; auto].
+    destruct fuel as [|f]; [lia|]. simpl.
+    pose proof (run_delta_clock_due j (orc (e_deltas st)) st H (Hcover _)) as H1.
+    destruct (run_delta ps (orc (e_deltas st)) st) as [st' c]. cbn [fst] in H1. destruct c; simpl; auto.
+    apply settle_clock_sleep; auto.
+  Qed.
+
+  Lemma tb_put_same st j t tr : same_clk st (tb_put st j t tr).
+  Proof. repeat split. Qed.
+
+  Lemma tb_set_clock_sleep j sfuel sig sh v st : clk_sleep j st -> clk_sleep j (tb_set ps orc sfuel sig sh v st).
+  Proof.
+    intros H. unfold tb_set. apply settle_clock_sleep.
+    eapply sleep_same; [|exact H]. repeat split.
+  Qed.
+
+  Lemma tb_exec_clock_sleep j sfuel fuel i : forall st, clk_sleep j st -> clk_sleep j (tb_exec ps orc sfuel fuel i st).
+  Proof.
+    induction fuel as [|f IH]; intros st H; [exact H|].
+    cbn [tb_exec]. cbv zeta.
+    assert (P : forall t tr, clk_sleep j (tb_put st i t tr)) by (intros; eapply sleep_same; [apply tb_put_same|auto]).
+    destruct (tb_mode (nth i (e_tbs st) no_tb) =? 0).
+    - destruct (tb_ops (nth i (e_tbs st) no_tb)) as [|[sig sh v|sig|spec b|spec|spec n] r]; auto.
+      apply IH. eapply sleep_same; [apply tb_put_same|]. apply tb_set_clock_sleep; auto.
+    - destruct (t_broken (tb_trig (nth i (e_tbs st) no_tb))); auto.
+      destruct (tb_mode (nth i (e_tbs st) no_tb) =? 1); auto.
+      destruct (tick_fmt (tb_res (nth i (e_tbs st) no_tb))) as [|c [|r vs]]; auto.
+      destruct (negb (r =? 0)); auto.
+      destruct (tb_mode (nth i (e_tbs st) no_tb) =? 2).
+      + destruct (negb (last vs 0 =? 0)); auto.
+      + destruct (tb_cnt (nth i (e_tbs st) no_tb)) as [|[|m]]; auto.
+  Qed.
+
+  Lemma tb_pass_clock_sleep j sfuel ks : forall acc, clk_sleep j (fst acc) -> clk_sleep j (fst (tb_pass ps orc sfuel ks acc)).
+  Proof.
+    induction ks as [|i r IH]; intros [st ran] H; cbn [tb_pass]; auto.
+    cbv zeta. destruct (tb_run (nth i (e_tbs st) no_tb)); [|apply IH; auto].
+    apply IH. cbn [fst]. apply tb_exec_clock_sleep. eapply sleep_same; [apply tb_put_same|auto].
+  Qed.
+
+  Lemma tb_loop_clock_sleep j sfuel fuel : forall st, clk_sleep j st -> clk_sleep j (tb_loop ps orc sfuel fuel st).
+  Proof.
+    induction fuel as [|f IH]; intros st H; cbn [tb_loop]; auto.
+    pose proof (tb_pass_clock_sleep j sfuel (seq 0 (length (e_tbs st))) (st, false) H) as H1.
+    destruct (tb_pass ps orc sfuel (seq 0 (length (e_tbs st))) (st, false)) as [st' ran]. cbn [fst] in H1.
+    destruct ran; auto.
+  Qed.
+
+  (* the timeline wakes the sleeping clock at exactly T (j+1), or stops earlier for somebody else *)
+  Lemma tl_advance_clock j st : clk_sleep j st -> clk_sleep j (tl_advance st) \/ clk_due (S j) (tl_advance st).
+  Proof.
+    intros (Lk & E & Hn). unfold tl_advance.
+    destruct (zmin_list (deadlines st)) as [D|] eqn:Z; [|left; repeat split; auto].
+    assert (I : In (T (S j)) (deadlines st)).
+    { apply (proc_timer_deadline st k); auto. rewrite E. reflexivity. }
+    pose proof (proj2 (zmin_list_spec _ _ Z) _ I) as Le.
+    assert (N : nth k (map (ps_fire D) (e_procs st)) no_pstate = ps_fire D (nth k (e_procs st) no_pstate)).
+    { rewrite (nth_indep _ no_pstate (ps_fire D no_pstate)) by (rewrite map_length; auto). apply map_nth. }
+    destruct (Z.eq_dec (T (S j)) D) as [Eq|Ne].
+    - right. unfold clk_due. cbn [e_procs e_now]. rewrite map_length, N. split; [auto|]. split; [|auto].
+      rewrite E. unfold ps_fire. cbn [ps_timer ps_run ps_local ps_trig ps_res ps_first].
+      rewrite Eq, Z.eqb_refl. reflexivity.
+    - left. unfold clk_sleep. cbn [e_procs e_now]. rewrite map_length, N. split; [auto|]. split; [|lia].
+      rewrite E. unfold ps_fire. cbn [ps_timer ps_run ps_local ps_trig ps_res ps_first].
+      apply Z.eqb_neq in Ne. rewrite Ne. reflexivity.
+  Qed.
+
+  Lemma advance_clock j sfuel tfuel st : (0 < sfuel)%nat -> clk_inv j st ->
+    clk_inv j (fst (advance ps orc sfuel tfuel st)) \/ clk_inv (S j) (fst (advance ps orc sfuel tfuel st)).
+  Proof.
+    intros Hf H. unfold advance. cbn [fst].
+    pose proof (settle_clock_inv j sfuel st Hf H) as H1.
+    pose proof (tb_loop_clock_sleep j sfuel tfuel _ H1) as H2.
+    destruct (tl_advance_clock j _ H2) as [H3|H3]; [left; right; auto|right; left; auto].
+  Qed.
+
+  (* whole runs: after any number of time steps clock k has made some number j' of runs, each at exactly the time of
+     the isolated clock system, and is either due at T j' or sleeping until T (j'+1) *)
+  Lemma run_clock sfuel tfuel t_end fuel : forall j st, (0 < sfuel)%nat -> clk_inv j st ->
+    exists j', (j <= j')%nat /\ clk_inv j' (run ps orc sfuel tfuel t_end fuel st).
+  Proof.
+    induction fuel as [|f IH]; intros j st Hf H; cbn [run]; [exists j; auto|].
+    pose proof (advance_clock j sfuel tfuel st Hf H) as H1.
+    destruct (advance ps orc sfuel tfuel st) as [st' crit]. cbn [fst] in H1.
+    destruct (crit && (e_now st' <=? t_end) && negb (quiescent st')).
+    - destruct H1 as [H1|H1]; [destruct (IH j st' Hf H1) as (j' & A & B)|destruct (IH (S j) st' Hf H1) as (j' & A & B)];
+        exists j'; split; auto; lia.
+    - destruct H1 as [H1|H1]; [exists j|exists (S j)]; auto.
+  Qed.
+End ClockComposed.
